@@ -1,1 +1,1111 @@
-//! (stub)
+//! Seeded model builder for the unit writer (C11, C18).
+//!
+//! A `CaseSpec` is a pure description of 1-4 units (entry trees, attributes of every
+//! `gimli::write::AttributeValue` kind, references, lists, strings, line programs).  From it
+//! this module derives
+//!  * the `gimli::write::Dwarf` / `DwarfUnit` object (`build`), with addresses either
+//!    constant or symbolic (`AddrMode`);
+//!  * the model forest in written order (`model_order`: pre-order, children in creation
+//!    order, base types first among the root's children, deleted sub-trees removed);
+//!  * the verdict whether the writer can encode the request (`classify`);
+//!  * an independent encoder of expressions (`encode_x`, opcode numbers from DWARF 5 + GNU).
+//! Nothing here reads gimli's answers.
+
+use crate::asm::{Asm, Enc};
+use crate::rt::Rng;
+use gimli::constants as dw;
+use gimli::write as w;
+use gimli::write::Address;
+use std::collections::BTreeMap;
+
+#[path = "wr_gen.rs"]
+pub mod gen;
+pub use gen::gen_case;
+
+/// Vendor attribute that carries the identity of every entry.
+pub const ID_AT: u16 = 0x3e01;
+
+pub fn ident(u: usize, k: usize) -> u64 {
+    ((u as u64 + 1) << 12) | (k as u64 & 0xfff)
+}
+
+pub const DW_TAG_BASE_TYPE: u16 = 0x24;
+
+#[derive(Clone, Debug, PartialEq, Eq, Hash)]
+pub struct AddrSpec {
+    pub sym: Option<usize>,
+    /// absolute value, or the addend when `sym` is set
+    pub val: u64,
+}
+
+impl AddrSpec {
+    pub fn abs(v: u64) -> AddrSpec {
+        AddrSpec { sym: None, val: v }
+    }
+    pub fn constant(&self, symvals: &[u64]) -> u64 {
+        match self.sym {
+            Some(s) => symvals.get(s).copied().unwrap_or(0).wrapping_add(self.val),
+            None => self.val,
+        }
+    }
+    pub fn plus(&self, d: u64) -> AddrSpec {
+        AddrSpec { sym: self.sym, val: self.val.wrapping_add(d) }
+    }
+}
+
+#[derive(Clone, Copy, Debug, PartialEq, Eq)]
+pub enum AddrMode {
+    Constant,
+    Symbolic,
+}
+
+#[derive(Clone, Debug, PartialEq, Eq, Hash)]
+pub enum XOp {
+    Simple(u8),
+    Addr(AddrSpec),
+    Constu(u64),
+    Consts(i64),
+    Fbreg(i64),
+    Breg(u16, i64),
+    Reg(u16),
+    Pick(u8),
+    Deref(bool),
+    DerefSize(bool, u8),
+    PlusUconst(u64),
+    Piece(u64),
+    BitPiece(u64, u64),
+    ImplicitValue(Vec<u8>),
+    Wasm(u8, u32),
+    // ULEB references to entries of the same unit
+    ConstType(usize, Vec<u8>),
+    RegvalType(u16, usize),
+    DerefType(bool, u8, usize),
+    Convert(Option<usize>),
+    Reinterpret(Option<usize>),
+    // fixed-size references to entries of the same unit
+    Call(usize),
+    ParameterRef(usize),
+    // references to entries of any unit (unit index, entry index)
+    CallRef(usize, usize),
+    VariableValue(usize, usize),
+    ImplicitPointer(usize, usize, i64),
+    EntryValue(Vec<XOp>),
+    /// DW_OP_skip / DW_OP_bra to the operation with this index (top level only; len = end)
+    Skip(usize),
+    Bra(usize),
+}
+
+#[derive(Clone, Debug, PartialEq, Eq, Hash)]
+pub enum XSpec {
+    Ops(Vec<XOp>),
+    Raw(Vec<u8>),
+}
+
+#[derive(Clone, Debug, PartialEq, Eq, Hash)]
+pub enum ValSpec {
+    Address(AddrSpec),
+    Block(Vec<u8>),
+    Data1(u8),
+    Data2(u16),
+    Data4(u32),
+    Data8(u64),
+    Data16(u128),
+    Sdata(i64),
+    Udata(u64),
+    ImplicitConst(i64),
+    Exprloc(XSpec),
+    Flag(bool),
+    FlagPresent,
+    UnitRef(usize),
+    DebugInfoRef(usize, usize),
+    DebugInfoRefSym(usize),
+    DebugInfoRefSup(u64),
+    LineProgramRef,
+    LocationListRef(usize),
+    DebugMacinfoRef(u64),
+    DebugMacroRef(u64),
+    RangeListRef(usize),
+    DebugTypesRef(u64),
+    StringRef(usize),
+    DebugStrRefSup(u64),
+    LineStringRef(usize),
+    String(Vec<u8>),
+    Encoding(u8),
+    DecimalSign(u8),
+    Endianity(u8),
+    Accessibility(u8),
+    Visibility(u8),
+    Virtuality(u8),
+    Language(u16),
+    AddressClass(u64),
+    IdentifierCase(u8),
+    CallingConvention(u8),
+    Inline(u8),
+    Ordering(u8),
+    FileIndex(Option<usize>),
+}
+
+impl ValSpec {
+    pub fn kind(&self) -> &'static str {
+        use ValSpec::*;
+        match self {
+            Address(_) => "Address",
+            Block(_) => "Block",
+            Data1(_) => "Data1",
+            Data2(_) => "Data2",
+            Data4(_) => "Data4",
+            Data8(_) => "Data8",
+            Data16(_) => "Data16",
+            Sdata(_) => "Sdata",
+            Udata(_) => "Udata",
+            ImplicitConst(_) => "ImplicitConst",
+            Exprloc(_) => "Exprloc",
+            Flag(_) => "Flag",
+            FlagPresent => "FlagPresent",
+            UnitRef(_) => "UnitRef",
+            DebugInfoRef(..) => "DebugInfoRef",
+            DebugInfoRefSym(_) => "DebugInfoRefSym",
+            DebugInfoRefSup(_) => "DebugInfoRefSup",
+            LineProgramRef => "LineProgramRef",
+            LocationListRef(_) => "LocationListRef",
+            DebugMacinfoRef(_) => "DebugMacinfoRef",
+            DebugMacroRef(_) => "DebugMacroRef",
+            RangeListRef(_) => "RangeListRef",
+            DebugTypesRef(_) => "DebugTypesRef",
+            StringRef(_) => "StringRef",
+            DebugStrRefSup(_) => "DebugStrRefSup",
+            LineStringRef(_) => "LineStringRef",
+            String(_) => "String",
+            Encoding(_) => "Encoding",
+            DecimalSign(_) => "DecimalSign",
+            Endianity(_) => "Endianity",
+            Accessibility(_) => "Accessibility",
+            Visibility(_) => "Visibility",
+            Virtuality(_) => "Virtuality",
+            Language(_) => "Language",
+            AddressClass(_) => "AddressClass",
+            IdentifierCase(_) => "IdentifierCase",
+            CallingConvention(_) => "CallingConvention",
+            Inline(_) => "Inline",
+            Ordering(_) => "Ordering",
+            FileIndex(_) => "FileIndex",
+        }
+    }
+}
+
+pub const ALL_KINDS: &[&str] = &[
+    "Address", "Block", "Data1", "Data2", "Data4", "Data8", "Data16", "Sdata", "Udata", "ImplicitConst", "Exprloc", "Flag", "FlagPresent",
+    "UnitRef", "DebugInfoRef", "DebugInfoRefSym", "DebugInfoRefSup", "LineProgramRef", "LocationListRef", "DebugMacinfoRef", "DebugMacroRef",
+    "RangeListRef", "DebugTypesRef", "StringRef", "DebugStrRefSup", "LineStringRef", "String", "Encoding", "DecimalSign", "Endianity",
+    "Accessibility", "Visibility", "Virtuality", "Language", "AddressClass", "IdentifierCase", "CallingConvention", "Inline", "Ordering", "FileIndex",
+];
+
+#[derive(Clone, Debug, PartialEq, Eq, Hash)]
+pub struct AttrSpec {
+    pub name: u16,
+    pub val: ValSpec,
+}
+
+#[derive(Clone, Debug)]
+pub struct EntrySpec {
+    /// index (creation order) of the parent; entry 0 is the root
+    pub parent: usize,
+    pub tag: u16,
+    pub sibling: bool,
+    /// `Some(j)`: the id is obtained with `reserve()` just before creation step j (<= own index)
+    /// and the entry is added with `add_reserved` at its own step
+    pub reserve_at: Option<usize>,
+    /// removed from its parent with `delete_child` after construction
+    pub deleted: bool,
+    pub attrs: Vec<AttrSpec>,
+}
+
+#[derive(Clone, Debug, PartialEq, Eq, Hash)]
+pub struct RListSpec {
+    /// StartLength / StartEnd items before the base (only where the encoding allows them)
+    pub pre: Vec<(AddrSpec, u64)>,
+    pub base: AddrSpec,
+    pub pairs: Vec<(u64, u64)>,
+}
+
+#[derive(Clone, Debug, PartialEq, Eq, Hash)]
+pub struct LListSpec {
+    pub pre: Vec<(AddrSpec, u64, XSpec)>,
+    pub base: AddrSpec,
+    pub pairs: Vec<(u64, u64, XSpec)>,
+}
+
+#[derive(Clone, Debug)]
+pub struct SeqSpec {
+    pub start: AddrSpec,
+    /// (address offset, line, file index into LineSpec::files)
+    pub rows: Vec<(u64, u64, usize)>,
+    pub end_off: u64,
+}
+
+#[derive(Clone, Debug)]
+pub struct LineSpec {
+    pub fmt64: bool,
+    /// version 5 only: 0 = inline strings, 1 = .debug_str, 2 = .debug_line_str
+    pub str_kind: u8,
+    pub comp_dir: Vec<u8>,
+    pub dirs: Vec<Vec<u8>>,
+    /// (name, directory: 0 = comp_dir, k = dirs[k-1]); files[0] is the primary source file
+    pub files: Vec<(Vec<u8>, usize)>,
+    pub seqs: Vec<SeqSpec>,
+}
+
+#[derive(Clone, Debug)]
+pub struct UnitSpec {
+    pub enc: Enc,
+    pub entries: Vec<EntrySpec>,
+    /// creation steps before which an id is reserved and never added
+    pub phantoms: Vec<usize>,
+    pub rlists: Vec<RListSpec>,
+    pub llists: Vec<LListSpec>,
+    pub line: Option<LineSpec>,
+}
+
+#[derive(Clone, Debug)]
+pub struct CaseSpec {
+    pub le: bool,
+    /// one unit written with `DwarfUnit::write` instead of `Dwarf::write`
+    pub single: bool,
+    pub units: Vec<UnitSpec>,
+    pub strings: Vec<Vec<u8>>,
+    pub line_strings: Vec<Vec<u8>>,
+    pub symvals: Vec<u64>,
+}
+
+// ================================================================ model: written order
+
+impl UnitSpec {
+    pub fn is_deleted(&self, k: usize) -> bool {
+        let mut k = k;
+        let mut guard = 0;
+        loop {
+            if self.entries[k].deleted {
+                return true;
+            }
+            if k == 0 || guard > self.entries.len() {
+                return false;
+            }
+            k = self.entries[k].parent;
+            guard += 1;
+        }
+    }
+
+    pub fn children_written(&self, k: usize) -> Vec<usize> {
+        let mut c: Vec<usize> = (1..self.entries.len()).filter(|&j| self.entries[j].parent == k && !self.entries[j].deleted).collect();
+        if k == 0 {
+            let (mut a, b): (Vec<usize>, Vec<usize>) = c.iter().partition(|&&j| self.entries[j].tag == DW_TAG_BASE_TYPE);
+            a.extend(b);
+            c = a;
+        }
+        c
+    }
+
+    /// Entries in written (pre-)order with their depth.
+    pub fn model_order(&self) -> Vec<(usize, usize)> {
+        let mut out = vec![];
+        let mut stack = vec![(0usize, 0usize)];
+        while let Some((k, d)) = stack.pop() {
+            out.push((k, d));
+            let c = self.children_written(k);
+            for &j in c.iter().rev() {
+                stack.push((j, d + 1));
+            }
+        }
+        out
+    }
+
+    /// The root has a DW_AT_low_pc that is not the constant 0.
+    pub fn has_base(&self) -> bool {
+        self.entries[0].attrs.iter().any(|a| a.name == dw::DW_AT_low_pc.0 && matches!(&a.val, ValSpec::Address(x) if x.sym.is_some() || x.val != 0))
+    }
+}
+
+// ================================================================ classification
+
+#[derive(Clone, Copy, Debug, PartialEq, Eq, Hash, PartialOrd, Ord)]
+pub enum Cls {
+    /// address / offset / length does not fit its field
+    TooLarge,
+    /// ULEB reference from an attribute expression to an entry written later
+    ForwardUleb,
+    /// reference to an entry that is not (any longer) part of the tree
+    DeletedTarget,
+    /// LineProgramRef in a unit without a line program
+    NoLineProgram,
+    /// DebugInfoRef::Symbol with a writer that has no symbols
+    SymbolRef,
+    /// Address::Symbol with a writer that has no relocations
+    SymbolicAddress,
+    /// unit version outside 2..=5
+    BadVersion,
+    /// version 2 DW_FORM_ref_addr / implicit_pointer is address sized: may or may not fit
+    MaybeTooLargeRef,
+}
+
+impl Cls {
+    pub fn name(self) -> &'static str {
+        match self {
+            Cls::TooLarge => "TooLarge",
+            Cls::ForwardUleb => "ForwardUleb",
+            Cls::DeletedTarget => "DeletedTarget",
+            Cls::NoLineProgram => "NoLineProgram",
+            Cls::SymbolRef => "SymbolRef",
+            Cls::SymbolicAddress => "SymbolicAddress",
+            Cls::BadVersion => "BadVersion",
+            Cls::MaybeTooLargeRef => "MaybeTooLargeRef",
+        }
+    }
+}
+
+#[derive(Clone, Debug, PartialEq, Eq)]
+pub enum Expect {
+    MustOk,
+    MustErr(Vec<Cls>),
+    /// only `MaybeTooLargeRef`: Ok (then the read-back must be right) or ValueTooLarge
+    Unjudged,
+}
+
+struct XCtx<'a> {
+    spec: &'a CaseSpec,
+    u: usize,
+    /// position in written order of every live entry of unit u
+    pos: &'a BTreeMap<usize, usize>,
+    /// written position of the entry owning the expression (None: location list)
+    owner: Option<usize>,
+    mode_symbolic_plain: bool,
+}
+
+fn classify_addr(a: &AddrSpec, enc: Enc, spec: &CaseSpec, symbolic_plain: bool, out: &mut Vec<Cls>) {
+    if symbolic_plain && a.sym.is_some() {
+        out.push(Cls::SymbolicAddress);
+        return;
+    }
+    let v = a.constant(&spec.symvals);
+    if v & !enc.addr_mask() != 0 {
+        out.push(Cls::TooLarge);
+    }
+}
+
+fn classify_ops(ops: &[XOp], c: &XCtx<'_>, out: &mut Vec<Cls>) {
+    let us = &c.spec.units[c.u];
+    let enc = us.enc;
+    let live = |uu: usize, k: usize| -> bool { c.spec.units.get(uu).map_or(false, |x| k < x.entries.len() && !x.is_deleted(k)) };
+    let mut uleb = |k: usize, out: &mut Vec<Cls>| {
+        if !live(c.u, k) {
+            out.push(Cls::DeletedTarget);
+        } else if let Some(owner) = c.owner {
+            if c.pos.get(&k).copied().unwrap_or(usize::MAX) > owner {
+                out.push(Cls::ForwardUleb);
+            }
+        }
+    };
+    for op in ops {
+        match op {
+            XOp::Addr(a) => classify_addr(a, enc, c.spec, c.mode_symbolic_plain, out),
+            XOp::ConstType(k, d) => {
+                uleb(*k, out);
+                if d.len() > 255 {
+                    out.push(Cls::TooLarge);
+                }
+            }
+            XOp::RegvalType(_, k) | XOp::DerefType(_, _, k) => uleb(*k, out),
+            XOp::Convert(Some(k)) | XOp::Reinterpret(Some(k)) => uleb(*k, out),
+            XOp::Call(k) | XOp::ParameterRef(k) => {
+                if !live(c.u, *k) {
+                    out.push(Cls::DeletedTarget);
+                }
+            }
+            XOp::CallRef(uu, k) | XOp::VariableValue(uu, k) => {
+                if !live(*uu, *k) {
+                    out.push(Cls::DeletedTarget);
+                }
+            }
+            XOp::ImplicitPointer(uu, k, _) => {
+                if !live(*uu, *k) {
+                    out.push(Cls::DeletedTarget);
+                } else if enc.version == 2 && enc.addr < 4 {
+                    out.push(Cls::MaybeTooLargeRef);
+                }
+            }
+            XOp::EntryValue(inner) => classify_ops(inner, c, out),
+            _ => {}
+        }
+    }
+}
+
+fn classify_x(x: &XSpec, c: &XCtx<'_>, out: &mut Vec<Cls>) {
+    if let XSpec::Ops(ops) = x {
+        classify_ops(ops, c, out);
+    }
+}
+
+/// Upper bound of the size of `.debug_info` for the whole case (used to decide whether an
+/// address-sized reference certainly fits).
+pub fn info_size_upper_bound(spec: &CaseSpec) -> u64 {
+    let mut total: u64 = 0;
+    for us in &spec.units {
+        total += 24;
+        for e in &us.entries {
+            total += 3 + 8 + 1;
+            for a in &e.attrs {
+                total += match &a.val {
+                    ValSpec::Block(b) | ValSpec::String(b) => b.len() as u64 + 11,
+                    ValSpec::Exprloc(XSpec::Raw(b)) => b.len() as u64 + 11,
+                    ValSpec::Exprloc(XSpec::Ops(ops)) => 11 + ops_bound(ops),
+                    ValSpec::Data16(_) => 16,
+                    _ => 10,
+                };
+            }
+        }
+    }
+    total
+}
+
+fn ops_bound(ops: &[XOp]) -> u64 {
+    ops.iter()
+        .map(|o| match o {
+            XOp::ImplicitValue(d) | XOp::ConstType(_, d) => d.len() as u64 + 24,
+            XOp::EntryValue(i) => 12 + ops_bound(i),
+            _ => 24,
+        })
+        .sum()
+}
+
+/// `symbolic_plain`: the object is built with symbolic addresses but written with a writer
+/// that does not record relocations.
+pub fn classify(spec: &CaseSpec, symbolic_plain: bool) -> Expect {
+    let mut out: Vec<Cls> = vec![];
+    let bound = info_size_upper_bound(spec);
+    for (u, us) in spec.units.iter().enumerate() {
+        let enc = us.enc;
+        if !(2..=5).contains(&enc.version) {
+            out.push(Cls::BadVersion);
+        }
+        let order = us.model_order();
+        let pos: BTreeMap<usize, usize> = order.iter().enumerate().map(|(i, (k, _))| (*k, i)).collect();
+        let live = |uu: usize, k: usize| -> bool { spec.units.get(uu).map_or(false, |x| k < x.entries.len() && !x.is_deleted(k)) };
+        let offset_too_large = |v: u64| !enc.fmt64 && v > 0xffff_ffff;
+        for (i, (k, _)) in order.iter().enumerate() {
+            for a in &us.entries[*k].attrs {
+                match &a.val {
+                    ValSpec::Address(x) => classify_addr(x, enc, spec, symbolic_plain, &mut out),
+                    ValSpec::Exprloc(x) => {
+                        let c = XCtx { spec, u, pos: &pos, owner: Some(i), mode_symbolic_plain: symbolic_plain };
+                        classify_x(x, &c, &mut out);
+                    }
+                    ValSpec::UnitRef(t) => {
+                        if !live(u, *t) {
+                            out.push(Cls::DeletedTarget);
+                        }
+                    }
+                    ValSpec::DebugInfoRef(uu, t) => {
+                        if !live(*uu, *t) {
+                            out.push(Cls::DeletedTarget);
+                        } else if enc.version == 2 && enc.addr < 4 {
+                            let lim = if enc.addr == 1 { 0xff } else { 0xffff };
+                            if bound > lim {
+                                out.push(Cls::MaybeTooLargeRef);
+                            }
+                        }
+                    }
+                    ValSpec::DebugInfoRefSym(_) => out.push(Cls::SymbolRef),
+                    ValSpec::DebugInfoRefSup(v) | ValSpec::DebugStrRefSup(v) | ValSpec::DebugMacinfoRef(v) | ValSpec::DebugMacroRef(v) => {
+                        if offset_too_large(*v) {
+                            out.push(Cls::TooLarge);
+                        }
+                    }
+                    ValSpec::LineProgramRef => {
+                        if us.line.is_none() {
+                            out.push(Cls::NoLineProgram);
+                        }
+                    }
+                    _ => {}
+                }
+            }
+        }
+        // lists are written whether or not an attribute refers to them
+        for l in &us.rlists {
+            for (a, len) in &l.pre {
+                classify_addr(a, enc, spec, symbolic_plain, &mut out);
+                classify_addr(&a.plus(*len), enc, spec, symbolic_plain, &mut out);
+            }
+            classify_addr(&l.base, enc, spec, symbolic_plain, &mut out);
+        }
+        for l in &us.llists {
+            let c = XCtx { spec, u, pos: &pos, owner: None, mode_symbolic_plain: symbolic_plain };
+            for (a, len, x) in &l.pre {
+                classify_addr(a, enc, spec, symbolic_plain, &mut out);
+                classify_addr(&a.plus(*len), enc, spec, symbolic_plain, &mut out);
+                classify_x(x, &c, &mut out);
+            }
+            classify_addr(&l.base, enc, spec, symbolic_plain, &mut out);
+            for (_, _, x) in &l.pairs {
+                classify_x(x, &c, &mut out);
+            }
+        }
+        if let Some(lp) = &us.line {
+            for s in &lp.seqs {
+                classify_addr(&s.start, enc, spec, symbolic_plain, &mut out);
+            }
+        }
+    }
+    // ImplicitPointer in v2 small-address units: only a "maybe" when the bound is exceeded
+    let lim_ok = |enc: Enc| bound <= if enc.addr == 1 { 0xff } else { 0xffff };
+    if out.iter().any(|c| *c == Cls::MaybeTooLargeRef) && spec.units.iter().all(|u| !(u.enc.version == 2 && u.enc.addr < 4) || lim_ok(u.enc)) {
+        out.retain(|c| *c != Cls::MaybeTooLargeRef);
+    }
+    out.sort();
+    out.dedup();
+    if out.is_empty() {
+        Expect::MustOk
+    } else if out.iter().all(|c| *c == Cls::MaybeTooLargeRef) {
+        Expect::Unjudged
+    } else {
+        out.retain(|c| *c != Cls::MaybeTooLargeRef);
+        Expect::MustErr(out)
+    }
+}
+
+// ================================================================ build the gimli object
+
+pub struct Ids {
+    pub units: Vec<w::UnitId>,
+    pub entries: Vec<Vec<w::UnitEntryId>>,
+}
+
+pub struct Built {
+    pub dwarf: Option<w::Dwarf>,
+    pub dunit: Option<w::DwarfUnit>,
+}
+
+fn mk_addr(a: &AddrSpec, spec: &CaseSpec, mode: AddrMode) -> Address {
+    match (mode, a.sym) {
+        (AddrMode::Symbolic, Some(s)) => Address::Symbol { symbol: s, addend: a.val as i64 },
+        _ => Address::Constant(a.constant(&spec.symvals)),
+    }
+}
+
+fn build_ops(e: &mut w::Expression, ops: &[XOp], u: usize, ids: &Ids, spec: &CaseSpec, mode: AddrMode) {
+    let die = |uu: usize, k: usize| ids.entries[uu][k];
+    let dref = |uu: usize, k: usize| w::DebugInfoRef::Entry(ids.units[uu], ids.entries[uu][k]);
+    let mut branches: Vec<(usize, usize)> = vec![];
+    let first = e.next_index();
+    for op in ops {
+        match op {
+            XOp::Simple(b) => e.op(gimli::DwOp(*b)),
+            XOp::Addr(a) => e.op_addr(mk_addr(a, spec, mode)),
+            XOp::Constu(v) => e.op_constu(*v),
+            XOp::Consts(v) => e.op_consts(*v),
+            XOp::Fbreg(v) => e.op_fbreg(*v),
+            XOp::Breg(r, v) => e.op_breg(gimli::Register(*r), *v),
+            XOp::Reg(r) => e.op_reg(gimli::Register(*r)),
+            XOp::Pick(i) => e.op_pick(*i),
+            XOp::Deref(false) => e.op_deref(),
+            XOp::Deref(true) => e.op_xderef(),
+            XOp::DerefSize(false, n) => e.op_deref_size(*n),
+            XOp::DerefSize(true, n) => e.op_xderef_size(*n),
+            XOp::PlusUconst(v) => e.op_plus_uconst(*v),
+            XOp::Piece(v) => e.op_piece(*v),
+            XOp::BitPiece(s, o) => e.op_bit_piece(*s, *o),
+            XOp::ImplicitValue(d) => e.op_implicit_value(d.clone().into_boxed_slice()),
+            XOp::Wasm(0, i) => e.op_wasm_local(*i),
+            XOp::Wasm(1, i) => e.op_wasm_global(*i),
+            XOp::Wasm(_, i) => e.op_wasm_stack(*i),
+            XOp::ConstType(k, d) => e.op_const_type(die(u, *k), d.clone().into_boxed_slice()),
+            XOp::RegvalType(r, k) => e.op_regval_type(gimli::Register(*r), die(u, *k)),
+            XOp::DerefType(false, n, k) => e.op_deref_type(*n, die(u, *k)),
+            XOp::DerefType(true, n, k) => e.op_xderef_type(*n, die(u, *k)),
+            XOp::Convert(k) => e.op_convert(k.map(|k| die(u, k))),
+            XOp::Reinterpret(k) => e.op_reinterpret(k.map(|k| die(u, k))),
+            XOp::Call(k) => e.op_call(die(u, *k)),
+            XOp::ParameterRef(k) => e.op_gnu_parameter_ref(die(u, *k)),
+            XOp::CallRef(uu, k) => e.op_call_ref(dref(*uu, *k)),
+            XOp::VariableValue(uu, k) => e.op_variable_value(dref(*uu, *k)),
+            XOp::ImplicitPointer(uu, k, off) => e.op_implicit_pointer(dref(*uu, *k), *off),
+            XOp::EntryValue(inner) => {
+                let mut x = w::Expression::new();
+                build_ops(&mut x, inner, u, ids, spec, mode);
+                e.op_entry_value(x);
+            }
+            XOp::Skip(t) => branches.push((e.op_skip(), *t)),
+            XOp::Bra(t) => branches.push((e.op_bra(), *t)),
+        }
+    }
+    for (b, t) in branches {
+        e.set_target(b, first + t.min(ops.len()));
+    }
+}
+
+pub fn build_expr(x: &XSpec, u: usize, ids: &Ids, spec: &CaseSpec, mode: AddrMode) -> w::Expression {
+    match x {
+        XSpec::Raw(b) => w::Expression::raw(b.clone()),
+        XSpec::Ops(ops) => {
+            let mut e = w::Expression::new();
+            build_ops(&mut e, ops, u, ids, spec, mode);
+            e
+        }
+    }
+}
+
+fn build_rlist(l: &RListSpec, v5_or_nobase: bool, spec: &CaseSpec, mode: AddrMode) -> w::RangeList {
+    let mut v = vec![];
+    if v5_or_nobase {
+        for (i, (a, len)) in l.pre.iter().enumerate() {
+            if i % 2 == 0 {
+                v.push(w::Range::StartLength { begin: mk_addr(a, spec, mode), length: *len });
+            } else {
+                v.push(w::Range::StartEnd { begin: mk_addr(a, spec, mode), end: mk_addr(&a.plus(*len), spec, mode) });
+            }
+        }
+    }
+    v.push(w::Range::BaseAddress { address: mk_addr(&l.base, spec, mode) });
+    for (b, e) in &l.pairs {
+        v.push(w::Range::OffsetPair { begin: *b, end: *e });
+    }
+    w::RangeList(v)
+}
+
+fn build_llist(l: &LListSpec, v5_or_nobase: bool, u: usize, ids: &Ids, spec: &CaseSpec, mode: AddrMode) -> w::LocationList {
+    let mut v = vec![];
+    if v5_or_nobase {
+        for (i, (a, len, x)) in l.pre.iter().enumerate() {
+            let data = build_expr(x, u, ids, spec, mode);
+            if i % 2 == 0 {
+                v.push(w::Location::StartLength { begin: mk_addr(a, spec, mode), length: *len, data });
+            } else {
+                v.push(w::Location::StartEnd { begin: mk_addr(a, spec, mode), end: mk_addr(&a.plus(*len), spec, mode), data });
+            }
+        }
+    }
+    v.push(w::Location::BaseAddress { address: mk_addr(&l.base, spec, mode) });
+    for (b, e, x) in &l.pairs {
+        v.push(w::Location::OffsetPair { begin: *b, end: *e, data: build_expr(x, u, ids, spec, mode) });
+    }
+    w::LocationList(v)
+}
+
+/// Whether the `pre` items of the lists of this unit are emitted.
+pub fn pre_allowed(us: &UnitSpec) -> bool {
+    us.enc.version >= 5 || !us.has_base()
+}
+
+fn build_line(lp: &LineSpec, enc: Enc, spec: &CaseSpec, mode: AddrMode, strings: &mut w::StringTable, line_strings: &mut w::LineStringTable) -> (w::LineProgram, Vec<w::FileId>) {
+    let mut lenc = enc.encoding();
+    lenc.format = if lp.fmt64 { gimli::Format::Dwarf64 } else { gimli::Format::Dwarf32 };
+    let mut ls = |b: &Vec<u8>| -> w::LineString {
+        if enc.version >= 5 {
+            match lp.str_kind {
+                1 => w::LineString::StringRef(strings.add(b.clone())),
+                2 => w::LineString::LineStringRef(line_strings.add(b.clone())),
+                _ => w::LineString::String(b.clone()),
+            }
+        } else {
+            w::LineString::String(b.clone())
+        }
+    };
+    let comp_dir = ls(&lp.comp_dir);
+    let comp_file = ls(&lp.files[0].0);
+    let src_dir = if lp.files[0].1 == 0 { None } else { Some(ls(&lp.dirs[lp.files[0].1 - 1])) };
+    let mut p = w::LineProgram::new(lenc, gimli::LineEncoding::default(), comp_dir, src_dir, comp_file, None);
+    let mut dir_ids = vec![p.default_directory()];
+    for d in &lp.dirs {
+        let s = ls(d);
+        dir_ids.push(p.add_directory(s));
+    }
+    let mut file_ids = vec![];
+    for (name, d) in &lp.files {
+        let s = ls(name);
+        file_ids.push(p.add_file(s, dir_ids[*d], None));
+    }
+    for s in &lp.seqs {
+        p.begin_sequence(Some(mk_addr(&s.start, spec, mode)));
+        for (off, line, f) in &s.rows {
+            p.row().address_offset = *off;
+            p.row().line = *line;
+            p.row().file = file_ids[*f];
+            p.generate_row();
+        }
+        p.end_sequence(s.end_off);
+    }
+    (p, file_ids)
+}
+
+struct UnitCtx<'a> {
+    u: usize,
+    spec: &'a CaseSpec,
+    mode: AddrMode,
+    ids: &'a Ids,
+    str_ids: &'a [w::StringId],
+    lstr_ids: &'a [w::LineStringId],
+    rl_ids: &'a [w::RangeListId],
+    ll_ids: &'a [w::LocationListId],
+    file_ids: &'a [w::FileId],
+}
+
+fn mk_value(v: &ValSpec, c: &UnitCtx<'_>) -> w::AttributeValue {
+    use w::AttributeValue as A;
+    match v {
+        ValSpec::Address(a) => A::Address(mk_addr(a, c.spec, c.mode)),
+        ValSpec::Block(b) => A::Block(b.clone()),
+        ValSpec::Data1(x) => A::Data1(*x),
+        ValSpec::Data2(x) => A::Data2(*x),
+        ValSpec::Data4(x) => A::Data4(*x),
+        ValSpec::Data8(x) => A::Data8(*x),
+        ValSpec::Data16(x) => A::Data16(*x),
+        ValSpec::Sdata(x) => A::Sdata(*x),
+        ValSpec::Udata(x) => A::Udata(*x),
+        ValSpec::ImplicitConst(x) => A::ImplicitConst(*x),
+        ValSpec::Exprloc(x) => A::Exprloc(build_expr(x, c.u, c.ids, c.spec, c.mode)),
+        ValSpec::Flag(b) => A::Flag(*b),
+        ValSpec::FlagPresent => A::FlagPresent,
+        ValSpec::UnitRef(k) => A::UnitRef(c.ids.entries[c.u][*k]),
+        ValSpec::DebugInfoRef(uu, k) => A::DebugInfoRef(w::DebugInfoRef::Entry(c.ids.units[*uu], c.ids.entries[*uu][*k])),
+        ValSpec::DebugInfoRefSym(s) => A::DebugInfoRef(w::DebugInfoRef::Symbol(*s)),
+        ValSpec::DebugInfoRefSup(x) => A::DebugInfoRefSup(gimli::DebugInfoOffset(*x as usize)),
+        ValSpec::LineProgramRef => A::LineProgramRef,
+        ValSpec::LocationListRef(l) => A::LocationListRef(c.ll_ids[*l]),
+        ValSpec::DebugMacinfoRef(x) => A::DebugMacinfoRef(gimli::DebugMacinfoOffset(*x as usize)),
+        ValSpec::DebugMacroRef(x) => A::DebugMacroRef(gimli::DebugMacroOffset(*x as usize)),
+        ValSpec::RangeListRef(l) => A::RangeListRef(c.rl_ids[*l]),
+        ValSpec::DebugTypesRef(x) => A::DebugTypesRef(gimli::DebugTypeSignature(*x)),
+        ValSpec::StringRef(i) => A::StringRef(c.str_ids[*i]),
+        ValSpec::DebugStrRefSup(x) => A::DebugStrRefSup(gimli::DebugStrOffset(*x as usize)),
+        ValSpec::LineStringRef(i) => A::LineStringRef(c.lstr_ids[*i]),
+        ValSpec::String(b) => A::String(b.clone()),
+        ValSpec::Encoding(x) => A::Encoding(gimli::DwAte(*x)),
+        ValSpec::DecimalSign(x) => A::DecimalSign(gimli::DwDs(*x)),
+        ValSpec::Endianity(x) => A::Endianity(gimli::DwEnd(*x)),
+        ValSpec::Accessibility(x) => A::Accessibility(gimli::DwAccess(*x)),
+        ValSpec::Visibility(x) => A::Visibility(gimli::DwVis(*x)),
+        ValSpec::Virtuality(x) => A::Virtuality(gimli::DwVirtuality(*x)),
+        ValSpec::Language(x) => A::Language(gimli::DwLang(*x)),
+        ValSpec::AddressClass(x) => A::AddressClass(gimli::DwAddr(*x)),
+        ValSpec::IdentifierCase(x) => A::IdentifierCase(gimli::DwId(*x)),
+        ValSpec::CallingConvention(x) => A::CallingConvention(gimli::DwCc(*x)),
+        ValSpec::Inline(x) => A::Inline(gimli::DwInl(*x)),
+        ValSpec::Ordering(x) => A::Ordering(gimli::DwOrd(*x)),
+        ValSpec::FileIndex(f) => A::FileIndex(f.and_then(|f| c.file_ids.get(f).copied())),
+    }
+}
+
+/// Create the entries of one unit following the creation schedule.
+fn build_entries(unit: &mut w::Unit, us: &UnitSpec) -> Vec<w::UnitEntryId> {
+    let n = us.entries.len();
+    let mut ids: Vec<Option<w::UnitEntryId>> = vec![None; n];
+    ids[0] = Some(unit.root());
+    for k in 1..n {
+        for e in k..n {
+            if us.entries[e].reserve_at == Some(k) && ids[e].is_none() {
+                ids[e] = Some(unit.reserve());
+            }
+        }
+        for p in &us.phantoms {
+            if *p == k {
+                let _ = unit.reserve();
+            }
+        }
+        let parent = ids[us.entries[k].parent.min(k - 1)].unwrap_or(unit.root());
+        let tag = gimli::DwTag(us.entries[k].tag);
+        match ids[k] {
+            Some(id) => unit.add_reserved(id, parent, tag),
+            None => ids[k] = Some(unit.add(parent, tag)),
+        }
+    }
+    for p in &us.phantoms {
+        if *p >= n {
+            let _ = unit.reserve();
+        }
+    }
+    ids.into_iter().map(|x| x.unwrap_or(unit.root())).collect()
+}
+
+fn fill_unit(unit: &mut w::Unit, u: usize, spec: &CaseSpec, mode: AddrMode, ids: &Ids, str_ids: &[w::StringId], lstr_ids: &[w::LineStringId], file_ids: &[w::FileId]) {
+    let us = &spec.units[u];
+    let pre = pre_allowed(us);
+    let rl_ids: Vec<w::RangeListId> = us.rlists.iter().map(|l| unit.ranges.add(build_rlist(l, pre, spec, mode))).collect();
+    let ll_ids: Vec<w::LocationListId> = us.llists.iter().map(|l| unit.locations.add(build_llist(l, pre, u, ids, spec, mode))).collect();
+    let c = UnitCtx { u, spec, mode, ids, str_ids, lstr_ids, rl_ids: &rl_ids, ll_ids: &ll_ids, file_ids };
+    for (k, e) in us.entries.iter().enumerate() {
+        let id = ids.entries[u][k];
+        if k != 0 && e.tag != unit.get(id).tag().0 {
+            // cannot happen; keeps the builder honest
+        }
+        unit.get_mut(id).set_sibling(e.sibling);
+        for a in &e.attrs {
+            let v = mk_value(&a.val, &c);
+            unit.get_mut(id).set(gimli::DwAt(a.name), v);
+        }
+    }
+    for (k, e) in us.entries.iter().enumerate() {
+        if k != 0 && e.deleted {
+            let parent = ids.entries[u][e.parent];
+            unit.get_mut(parent).delete_child(ids.entries[u][k]);
+        }
+    }
+}
+
+pub fn build(spec: &CaseSpec, mode: AddrMode) -> Built {
+    if spec.single {
+        let us = &spec.units[0];
+        let mut du = w::DwarfUnit::new(us.enc.encoding());
+        let str_ids: Vec<w::StringId> = spec.strings.iter().map(|s| du.strings.add(s.clone())).collect();
+        let lstr_ids: Vec<w::LineStringId> = spec.line_strings.iter().map(|s| du.line_strings.add(s.clone())).collect();
+        let mut file_ids = vec![];
+        if let Some(lp) = &us.line {
+            let (p, f) = build_line(lp, us.enc, spec, mode, &mut du.strings, &mut du.line_strings);
+            du.unit.line_program = p;
+            file_ids = f;
+        }
+        let entries = build_entries(&mut du.unit, us);
+        let ids = Ids { units: vec![], entries: vec![entries] };
+        fill_unit(&mut du.unit, 0, spec, mode, &ids, &str_ids, &lstr_ids, &file_ids);
+        return Built { dwarf: None, dunit: Some(du) };
+    }
+    let mut d = w::Dwarf::new();
+    let str_ids: Vec<w::StringId> = spec.strings.iter().map(|s| d.strings.add(s.clone())).collect();
+    let lstr_ids: Vec<w::LineStringId> = spec.line_strings.iter().map(|s| d.line_strings.add(s.clone())).collect();
+    let mut ids = Ids { units: vec![], entries: vec![] };
+    let mut files: Vec<Vec<w::FileId>> = vec![];
+    for us in &spec.units {
+        let (lp, f) = match &us.line {
+            Some(lp) => build_line(lp, us.enc, spec, mode, &mut d.strings, &mut d.line_strings),
+            None => (w::LineProgram::none(), vec![]),
+        };
+        let mut unit = w::Unit::new(us.enc.encoding(), lp);
+        let entries = build_entries(&mut unit, us);
+        ids.units.push(d.units.add(unit));
+        ids.entries.push(entries);
+        files.push(f);
+    }
+    for u in 0..spec.units.len() {
+        let uid = ids.units[u];
+        let unit = d.units.get_mut(uid);
+        fill_unit(unit, u, spec, mode, &ids, &str_ids, &lstr_ids, &files[u]);
+    }
+    Built { dwarf: Some(d), dunit: None }
+}
+
+pub fn write_built<W: w::Writer>(b: &mut Built, sections: &mut w::Sections<W>) -> w::Result<()> {
+    if let Some(d) = &mut b.dwarf {
+        d.write(sections)
+    } else if let Some(du) = &mut b.dunit {
+        du.write(sections)
+    } else {
+        Ok(())
+    }
+}
+
+// ================================================================ independent expression encoder
+
+/// Offsets of the entries as found in the emitted `.debug_info` (by identity).
+#[derive(Clone, Debug, Default)]
+pub struct Offs {
+    /// section offset of each unit header
+    pub unit: Vec<u64>,
+    /// per unit: entry index -> offset within the unit
+    pub die: Vec<BTreeMap<usize, u64>>,
+}
+
+/// Sites inside an encoded expression that hold an address (`DW_OP_addr`) or a
+/// `.debug_info` offset: (position, size, symbolic?)
+#[derive(Clone, Debug, PartialEq, Eq)]
+pub struct XSite {
+    pub pos: usize,
+    pub size: u8,
+    pub addr_sym: Option<bool>,
+}
+
+pub fn encode_ops(ops: &[XOp], enc: Enc, u: usize, offs: &Offs, symvals: &[u64], top: bool, sites: &mut Vec<XSite>, base: usize) -> Option<Vec<u8>> {
+    let v5 = enc.version >= 5;
+    let mut a = Asm::new(enc.le);
+    a.map = false;
+    let die = |uu: usize, k: usize| -> Option<u64> { offs.die.get(uu)?.get(&k).copied() };
+    let abs = |uu: usize, k: usize| -> Option<u64> { Some(offs.unit.get(uu)?.wrapping_add(die(uu, k)?)) };
+    let mut starts = vec![];
+    let mut branches: Vec<(usize, usize)> = vec![];
+    for op in ops {
+        starts.push(a.len());
+        match op {
+            XOp::Simple(b) => {
+                a.u8(*b);
+            }
+            XOp::Addr(v) => {
+                a.u8(0x03);
+                sites.push(XSite { pos: base + a.len(), size: enc.addr, addr_sym: Some(v.sym.is_some()) });
+                a.uint(enc.addr as usize, v.constant(symvals));
+            }
+            XOp::Constu(v) => {
+                if *v < 32 {
+                    a.u8(0x30 + *v as u8);
+                } else {
+                    a.u8(0x10).uleb(*v);
+                }
+            }
+            XOp::Consts(v) => {
+                a.u8(0x11).sleb(*v);
+            }
+            XOp::Fbreg(v) => {
+                a.u8(0x91).sleb(*v);
+            }
+            XOp::Breg(r, v) => {
+                if *r < 32 {
+                    a.u8(0x70 + *r as u8).sleb(*v);
+                } else {
+                    a.u8(0x92).uleb(*r as u64).sleb(*v);
+                }
+            }
+            XOp::Reg(r) => {
+                if *r < 32 {
+                    a.u8(0x50 + *r as u8);
+                } else {
+                    a.u8(0x90).uleb(*r as u64);
+                }
+            }
+            XOp::Pick(i) => match *i {
+                0 => {
+                    a.u8(0x12);
+                }
+                1 => {
+                    a.u8(0x14);
+                }
+                n => {
+                    a.u8(0x15).u8(n);
+                }
+            },
+            XOp::Deref(space) => {
+                a.u8(if *space { 0x18 } else { 0x06 });
+            }
+            XOp::DerefSize(space, n) => {
+                a.u8(if *space { 0x95 } else { 0x94 }).u8(*n);
+            }
+            XOp::PlusUconst(v) => {
+                a.u8(0x23).uleb(*v);
+            }
+            XOp::Piece(v) => {
+                a.u8(0x93).uleb(*v);
+            }
+            XOp::BitPiece(s, o) => {
+                a.u8(0x9d).uleb(*s).uleb(*o);
+            }
+            XOp::ImplicitValue(d) => {
+                a.u8(0x9e).uleb(d.len() as u64).bytes(d);
+            }
+            XOp::Wasm(k, i) => {
+                a.u8(0xed).u8((*k).min(2)).uleb(*i as u64);
+            }
+            XOp::ConstType(k, d) => {
+                a.u8(if v5 { 0xa4 } else { 0xf4 }).uleb(die(u, *k)?).u8(d.len() as u8).bytes(d);
+            }
+            XOp::RegvalType(r, k) => {
+                a.u8(if v5 { 0xa5 } else { 0xf5 }).uleb(*r as u64).uleb(die(u, *k)?);
+            }
+            XOp::DerefType(space, n, k) => {
+                a.u8(if *space { 0xa7 } else if v5 { 0xa6 } else { 0xf6 }).u8(*n).uleb(die(u, *k)?);
+            }
+            XOp::Convert(k) => {
+                a.u8(if v5 { 0xa8 } else { 0xf7 });
+                match k {
+                    Some(k) => a.uleb(die(u, *k)?),
+                    None => a.u8(0),
+                };
+            }
+            XOp::Reinterpret(k) => {
+                a.u8(if v5 { 0xa9 } else { 0xf9 });
+                match k {
+                    Some(k) => a.uleb(die(u, *k)?),
+                    None => a.u8(0),
+                };
+            }
+            XOp::Call(k) => {
+                a.u8(0x99).u32(die(u, *k)? as u32);
+            }
+            XOp::ParameterRef(k) => {
+                a.u8(0xfa).u32(die(u, *k)? as u32);
+            }
+            XOp::CallRef(uu, k) => {
+                a.u8(0x9a);
+                sites.push(XSite { pos: base + a.len(), size: enc.word(), addr_sym: None });
+                a.word(enc.fmt64, abs(*uu, *k)?);
+            }
+            XOp::VariableValue(uu, k) => {
+                a.u8(0xfd);
+                sites.push(XSite { pos: base + a.len(), size: enc.word(), addr_sym: None });
+                a.word(enc.fmt64, abs(*uu, *k)?);
+            }
+            XOp::ImplicitPointer(uu, k, off) => {
+                a.u8(if v5 { 0xa0 } else { 0xf2 });
+                let size = if enc.version == 2 { enc.addr } else { enc.word() };
+                sites.push(XSite { pos: base + a.len(), size, addr_sym: None });
+                a.uint(size as usize, abs(*uu, *k)?).sleb(*off);
+            }
+            XOp::EntryValue(inner) => {
+                // the body's length prefix is a ULEB whose size depends on the body; encode twice
+                let mut scratch = vec![];
+                let body0 = encode_ops(inner, enc, u, offs, symvals, false, &mut scratch, 0)?;
+                a.u8(if v5 { 0xa3 } else { 0xf3 }).uleb(body0.len() as u64);
+                let body = encode_ops(inner, enc, u, offs, symvals, false, sites, base + a.len())?;
+                a.bytes(&body);
+            }
+            XOp::Skip(t) | XOp::Bra(t) => {
+                if !top {
+                    return None;
+                }
+                branches.push((a.len(), *t));
+                a.u8(if matches!(op, XOp::Skip(_)) { 0x2f } else { 0x28 }).u16(0);
+            }
+        }
+    }
+    starts.push(a.len());
+    for (b, t) in branches {
+        let target = starts[t.min(ops.len())] as i64;
+        let disp = target - (b as i64 + 3);
+        a.patch_uint(b + 1, 2, disp as i16 as u16 as u64);
+    }
+    Some(a.buf)
+}
+
+pub fn encode_x(x: &XSpec, enc: Enc, u: usize, offs: &Offs, symvals: &[u64], sites: &mut Vec<XSite>, base: usize) -> Option<Vec<u8>> {
+    match x {
+        XSpec::Raw(b) => Some(b.clone()),
+        XSpec::Ops(ops) => encode_ops(ops, enc, u, offs, symvals, true, sites, base),
+    }
+}
+
+/// Resolved ranges a range list denotes: (begin, end).
+pub fn resolve_rlist(l: &RListSpec, us: &UnitSpec, symvals: &[u64]) -> Vec<(u64, u64)> {
+    let mut v = vec![];
+    if pre_allowed(us) {
+        for (a, len) in &l.pre {
+            let b = a.constant(symvals);
+            v.push((b, b.wrapping_add(*len)));
+        }
+    }
+    let base = l.base.constant(symvals);
+    for (b, e) in &l.pairs {
+        v.push((base.wrapping_add(*b), base.wrapping_add(*e)));
+    }
+    v
+}
+
+/// Number of list items actually emitted.
+pub fn llist_items<'a>(l: &'a LListSpec, us: &UnitSpec, symvals: &[u64]) -> Vec<(u64, u64, &'a XSpec)> {
+    let mut v = vec![];
+    if pre_allowed(us) {
+        for (a, len, x) in &l.pre {
+            let b = a.constant(symvals);
+            v.push((b, b.wrapping_add(*len), x));
+        }
+    }
+    let base = l.base.constant(symvals);
+    for (b, e, x) in &l.pairs {
+        v.push((base.wrapping_add(*b), base.wrapping_add(*e), x));
+    }
+    v
+}
+
+pub fn unused(_: &mut Rng) {}
